@@ -35,6 +35,8 @@ var c26Assumptions = []string{
 	"dolt's background statistics worker is stopped (dolt_stats_stop) so that plans, and therefore the recorded plan classes, do not depend on timing; ANALYZE TABLE is issued explicitly in some cases",
 	"single-column UNIQUE indexes are not generated (a generated row must never be rejected); UNIQUE indexes always contain the primary key",
 	"while finding " + c26FindValueRowNull + " is listed open, a disagreement where dolt's plan has a Filter whose whole condition is a single <= or >= comparison and dolt's rows are a superset of the reference rows is attributed to it (counted as excluded_known); the pinned sub-test reports it",
+	"while finding " + c26FindDecimalLookup + " is listed open, a disagreement on a join whose ON equality is between DECIMAL columns and whose dolt plan contains a LookupJoin is attributed to it (counted as excluded_known); the pinned sub-test reports it",
+	"while finding " + c26FindKeylessLookupNull + " is listed open, a disagreement on a join that involves a keyless table and whose dolt plan contains a LookupJoin is attributed to it (counted as excluded_known); the pinned sub-test reports it",
 	"while finding " + c26FindKeylessCount + " is listed open, `SELECT COUNT(col) FROM <keyless table>` is not generated (counted as excluded_known); the pinned sub-test reports it",
 }
 
@@ -249,7 +251,7 @@ func qPlanClasses(plan []string) (classes []string, kv bool) {
 // the outcome of triaging disagreements that turned out not to be dolt defects; each is listed
 // in the recorder's assumptions and counted through rec.Excluded.
 func c26Exclusion(q qQuery) string {
-	if q.Shape == "keyless_count_column" && vh.OpenFinding("C26", c26FindKeylessCount) {
+	if q.has("keyless_count_column") && vh.OpenFinding("C26", c26FindKeylessCount) {
 		return c26FindKeylessCount
 	}
 	return ""
@@ -275,14 +277,59 @@ func c26PinnedValueRowNull(t *testing.T, srv *vsql.Server, admin *vsql.Session) 
 	s.MustExec(t, "CREATE TABLE t (pk INT PRIMARY KEY, c INT UNSIGNED)")
 	s.MustExec(t, "INSERT INTO t VALUES (1,3),(2,NULL)")
 	var bad []string
-	for _, q := range []string{"SELECT pk FROM t WHERE c <= 10", "SELECT pk FROM t WHERE c >= 0", "SELECT pk FROM t WHERE c < 11", "SELECT pk FROM t WHERE c > 0"} {
+	for _, q := range []string{"SELECT pk, c FROM t WHERE c <= 10", "SELECT pk, c FROM t WHERE c >= 0", "SELECT pk, c FROM t WHERE c < 11", "SELECT pk, c FROM t WHERE c > 0"} {
 		r := s.MustQuery(t, q)
-		if got := strings.Join(r.Sorted(), ","); got != "1" {
-			bad = append(bad, fmt.Sprintf("%s returned pk {%s} want {1}", q, got))
+		if got := vsql.Show(r.Sorted()); got != "(1,3)" {
+			bad = append(bad, fmt.Sprintf("%s returned %s want (1,3)", q, got))
 		}
 	}
 	if len(bad) > 0 {
 		return "t(pk INT PRIMARY KEY, c INT UNSIGNED) rows (1,3),(2,NULL): " + strings.Join(bad, "; ")
+	}
+	return ""
+}
+
+// c26FindDecimalLookup: the lax secondary lookups behind dolt's lookup join scan the key range
+// [key, IncrementTuple(key)) as if it were a point lookup, and IncrementTuple adds the integer 1
+// to a DECIMAL key: every index entry in [key, key+1) joins.
+const c26FindDecimalLookup = "C26-decimal-lookup-keyrange"
+
+func c26PinnedDecimalLookup(t *testing.T, srv *vsql.Server, admin *vsql.Session) string {
+	db := srv.NewDBName()
+	admin.MustExec(t, "CREATE DATABASE "+db)
+	defer admin.Exec("DROP DATABASE " + db)
+	s := srv.Session(t, "pinned", db)
+	defer s.Close()
+	s.MustExec(t, "CREATE TABLE b (k0 VARCHAR(8) PRIMARY KEY, c0 DECIMAL(10,2), c1 INT, KEY i0 (c0))")
+	s.MustExec(t, "CREATE TABLE a (k0 INT PRIMARY KEY, k1 DECIMAL(10,2))")
+	s.MustExec(t, "INSERT INTO b VALUES ('c',0.01,1),('d',NULL,2),('e',7.50,3)")
+	s.MustExec(t, "INSERT INTO a VALUES (1,0.01),(2,-0.01),(3,0.00),(4,-0.09),(5,0.05),(6,-1.03)")
+	q := "SELECT /*+ JOIN_ORDER(a,b) LOOKUP_JOIN(a,b) */ a.k0, b.c1 FROM a JOIN b ON a.k1 = b.c0"
+	r := s.MustQuery(t, q)
+	if got := vsql.Show(r.Sorted()); got != "(1,1)" {
+		p := s.MustQuery(t, "EXPLAIN PLAN "+q)
+		return fmt.Sprintf("b(k0,c0 DECIMAL(10,2) indexed,c1) = {('c',0.01,1),('d',NULL,2),('e',7.50,3)}, a(k0,k1 DECIMAL(10,2)) = {(1,0.01),(2,-0.01),(3,0.00),(4,-0.09),(5,0.05),(6,-1.03)}: %s returned (a.k0,b.c1) %s want (1,1); plan %s", q, got, strings.Join(p.Ordered(), " / "))
+	}
+	return ""
+}
+
+// c26FindKeylessLookupNull: keylessSecondaryLookupGen (lookup side of a kv lookup join is a
+// keyless table) does not skip NULL keys like the keyed generators do: NULL = NULL joins.
+const c26FindKeylessLookupNull = "C26-keyless-lookup-null-key"
+
+func c26PinnedKeylessLookupNull(t *testing.T, srv *vsql.Server, admin *vsql.Session) string {
+	db := srv.NewDBName()
+	admin.MustExec(t, "CREATE DATABASE "+db)
+	defer admin.Exec("DROP DATABASE " + db)
+	s := srv.Session(t, "pinned", db)
+	defer s.Close()
+	s.MustExec(t, "CREATE TABLE t1 (c0 INT, c1 INT, KEY i1 (c0))")
+	s.MustExec(t, "INSERT INTO t1 VALUES (NULL,1),(NULL,2),(5,3)")
+	q := "SELECT /*+ LOOKUP_JOIN(a,b) */ a.c1, b.c1 FROM t1 a JOIN t1 b ON a.c0 = b.c0"
+	r := s.MustQuery(t, q)
+	if got := vsql.Show(r.Sorted()); got != "(3,3)" {
+		p := s.MustQuery(t, "EXPLAIN PLAN "+q)
+		return fmt.Sprintf("keyless t1(c0 INT indexed, c1 INT) = {(NULL,1),(NULL,2),(5,3)}: %s returned %s want (3,3); plan %s", q, got, strings.Join(p.Ordered(), " / "))
 	}
 	return ""
 }
@@ -386,6 +433,22 @@ func (c *qCase) runQuery(q qQuery) {
 		mismatch = !vsql.EqualStrings(dr.Ordered(), mr.Ordered())
 	} else {
 		mismatch = !vsql.EqualStrings(dr.Sorted(), mr.Sorted())
+	}
+	if mismatch && q.has("keyless_join") && vh.OpenFinding("C26", c26FindKeylessLookupNull) {
+		dp, _ := plan()
+		if strings.Contains(strings.Join(dp, "\n"), "LookupJoin") {
+			c.rec.Excluded(1)
+			c.rec.Class("known:"+c26FindKeylessLookupNull, 1)
+			return
+		}
+	}
+	if mismatch && q.has("decimal_join_key") && vh.OpenFinding("C26", c26FindDecimalLookup) {
+		dp, _ := plan()
+		if strings.Contains(strings.Join(dp, "\n"), "LookupJoin") {
+			c.rec.Excluded(1)
+			c.rec.Class("known:"+c26FindDecimalLookup, 1)
+			return
+		}
 	}
 	if mismatch && vh.OpenFinding("C26", c26FindValueRowNull) {
 		dp, _ := plan()
@@ -513,13 +576,33 @@ func TestVerif_C26(t *testing.T) {
 			t.Errorf("%s", msg)
 		}
 	})
+	t.Run("pinned_decimal_lookup_keyrange", func(t *testing.T) {
+		if msg := c26PinnedDecimalLookup(t, srv, admin); msg != "" {
+			if vh.OpenFinding("C26", c26FindDecimalLookup) {
+				vh.ReportKnown("C26", c26FindDecimalLookup, msg)
+				return
+			}
+			vh.NoteViolation(t.Name(), "", `{"sql":["CREATE TABLE b (k0 VARCHAR(8) PRIMARY KEY, c0 DECIMAL(10,2), KEY i0 (c0))","CREATE TABLE a (k0 INT PRIMARY KEY, k1 DECIMAL(10,2))","INSERT INTO b VALUES ('c',0.01)","INSERT INTO a VALUES (1,0.01),(2,-0.01),(3,0.00),(4,-0.09),(5,0.05),(6,-1.03)","SELECT /*+ LOOKUP_JOIN(a,b) */ a.k0 FROM a JOIN b ON a.k1 = b.c0"],"observed":"`+strings.ReplaceAll(msg, `"`, `'`)+`"}`)
+			t.Errorf("%s", msg)
+		}
+	})
+	t.Run("pinned_keyless_lookup_null_key", func(t *testing.T) {
+		if msg := c26PinnedKeylessLookupNull(t, srv, admin); msg != "" {
+			if vh.OpenFinding("C26", c26FindKeylessLookupNull) {
+				vh.ReportKnown("C26", c26FindKeylessLookupNull, msg)
+				return
+			}
+			vh.NoteViolation(t.Name(), "", `{"sql":["CREATE TABLE t1 (c0 INT, c1 INT, KEY i1 (c0))","INSERT INTO t1 VALUES (NULL,1),(NULL,2),(5,3)","SELECT /*+ LOOKUP_JOIN(a,b) */ a.c1, b.c1 FROM t1 a JOIN t1 b ON a.c0 = b.c0"],"observed":"`+strings.ReplaceAll(msg, `"`, `'`)+`"}`)
+			t.Errorf("%s", msg)
+		}
+	})
 	t.Run("pinned_valuerow_null_comparison", func(t *testing.T) {
 		if msg := c26PinnedValueRowNull(t, srv, admin); msg != "" {
 			if vh.OpenFinding("C26", c26FindValueRowNull) {
 				vh.ReportKnown("C26", c26FindValueRowNull, msg)
 				return
 			}
-			vh.NoteViolation(t.Name(), "", `{"sql":["CREATE TABLE t (pk INT PRIMARY KEY, c INT UNSIGNED)","INSERT INTO t VALUES (1,3),(2,NULL)","SELECT pk FROM t WHERE c <= 10","SELECT pk FROM t WHERE c >= 0"],"observed":"`+strings.ReplaceAll(msg, `"`, `'`)+`"}`)
+			vh.NoteViolation(t.Name(), "", `{"sql":["CREATE TABLE t (pk INT PRIMARY KEY, c INT UNSIGNED)","INSERT INTO t VALUES (1,3),(2,NULL)","SELECT pk, c FROM t WHERE c <= 10","SELECT pk, c FROM t WHERE c >= 0"],"observed":"`+strings.ReplaceAll(msg, `"`, `'`)+`"}`)
 			t.Errorf("%s", msg)
 		}
 	})
